@@ -329,6 +329,16 @@ def eval_whitelist(prog, f, path, queued):
         if nm in ("eq", "ne") and len(args) == 2 and all(x[0] == "leaf" for x in args):
             r = int(args[0] == args[1])
             return ("int", r if nm == "eq" else 1 - r)
+        if nm in ("eq", "ne") and len(args) == 2 and all(x[0] == "variant" and x[1] == "Sender" for x in args):
+            # whole-value comparison of two senders (`*p.sender() == Sender::Member(*own)`): same variant and same leaf
+            pa, pb = args[0][3], args[1][3]
+            if args[0][2] != args[1][2]:
+                r = 0
+            elif all(x[0] == "leaf" for x in pa + pb) and len(pa) == len(pb):
+                r = int(pa == pb)
+            else:
+                return None
+            return ("int", r if nm == "eq" else 1 - r)
         return None
     ev = dtable.Evaluator(f, lambda v: None, lambda a, b: None, lambda bb, v, t: None, call_hook=hook, prog=prog, max_steps=4000)
     env = {l: ("param", "arg%d" % l, l) for l in range(1, f.nargs + 1)}
